@@ -128,6 +128,46 @@ def gen_term(rng, budget, cx=None):
     return f'{op}(' + ','.join(kids) + ')'
 
 
+# ----------------------------------------------------------------------------- E1 generator, C03w
+def gen_e1w(rng, cid):
+    """life cycle of the when_all / when_all_vector operation state: 0-4 children (when_all: 2-4), every channel at
+    every child, children completing on their own thread, sharing a thread, or on the starter's thread before / after
+    `start` (inline completion in the start loop; the last inline child destroys the operation state while the loop is
+    still on the stack); two thirds with a self-deleting operation state in guarded memory (life=1)"""
+    kind = rng.weighted([('when_all_vector', 3), ('when_all', 2)])
+    n = rng.below(5) if kind == 'when_all_vector' else 2 + rng.below(3)
+    if kind == 'when_all_vector' and n > 0 and rng.below(8) == 0:
+        n = 0
+    seed = rng.below(1 << 30)
+    strat = rng.weighted([(0, 5), (1, 3), (2, 2)])
+    life = ' life=1' if rng.below(3) != 0 else ''
+    progs = [['start']]
+    mode = rng.below(4)            # 0: own threads, 1: random sharing, 2: all on the starter's thread, 3: mixed with starter
+    for i in range(n):
+        ch = rng.weighted([('value', 5), ('error', 3), ('stopped', 2)])
+        op = f'complete_{ch} {i} {1 + rng.below(9)}'
+        if mode == 0 or (mode == 1 and (len(progs) == 1 or rng.below(2) == 0)):
+            progs.append([op])
+        elif mode == 1:
+            progs[1 + rng.below(len(progs) - 1)].append(op)
+        elif mode == 2:
+            progs[0].append(op)
+        else:
+            if rng.below(2) == 0:
+                progs[0].append(op)
+            else:
+                progs.append([op])
+    for pr in progs:
+        for j in range(len(pr) - 1, 0, -1):
+            k2 = rng.below(j + 1)
+            pr[j], pr[k2] = pr[k2], pr[j]
+    lines = [f'case {cid} kind={kind} n={n} seed={seed} strat={strat}{life}']
+    for t, pr in enumerate(progs):
+        lines.append(f'thread {t}: ' + ' ; '.join(pr) + ' ;')
+    lines.append('endcase')
+    return '\n'.join(lines)
+
+
 # ----------------------------------------------------------------------------- E0 static generator (C03s)
 U8 = ['then', 'lv', 'le', 'co', 'un', 'dv', 'rs', 'dos']
 U6 = ['then', 'lv', 'le', 'co', 'rs', 'dos']
@@ -408,7 +448,9 @@ def main():
     # Props/C03.lean (term semantics, protocol of the shared state, when_all), Props/C03Life.lean (ownership of
     # the shared state: no touch after release, destroyed exactly once, pinned split_tuple witness) and
     # Props/C03s.lean (payload locations: every payload is read while its operation state is alive)
-    PROPS = ['C03', 'C03Life', 'C03s']
+    # Props/C03w.lean (life cycle of the when_all / when_all_vector operation state: one completion by the last
+    # child, no access after the last decrement, destroyed exactly once)
+    PROPS = ['C03', 'C03Life', 'C03s', 'C03w']
     ok_build, build_log = lean_build(PROPS)
     audit = {'obligations': 0, 'discharged': 0, 'problems': ['lake build failed'], 'theorems': [],
              'checker_cmd': f'cd {LEAN} && lake build'}
@@ -499,6 +541,9 @@ def main():
         if 'e1_split' in builds:
             for i in range(n1):
                 e1_cases.append(gen_e1(rng, f's{base_seed}n{i}'))
+            # C03w (added after everything else: the cases above are unchanged): life cycle of when_all / when_all_vector
+            for i in range(3000 if tr == 'thorough' else 250):
+                e1_cases.append(gen_e1w(rng, f'w{base_seed}n{i}'))
 
     def run_static(e0s, tag):
         """statically typed E0 cases: static=1 on the pure binary (a term it does not recognise is re-run on the REF
@@ -552,7 +597,7 @@ def main():
     if (not proof_ok or kinds['tie'] > 0) and kinds['monitor'] == 0 and not replay:
         xe0 = [gen_e0(rng, f'x{base_seed}n{i}', pool=(i % 4 == 3)) for i in range(6000)]
         xe0 += [gen_e0_static(rng, f'z{base_seed}n{i}', pool=(i % 8 == 7)) for i in range(3000)]
-        xe1 = [gen_e1(rng, f'y{base_seed}n{i}') for i in range(3000)] if 'e1_split' in builds else []
+        xe1 = ([gen_e1(rng, f'y{base_seed}n{i}') for i in range(3000)] + [gen_e1w(rng, f'yw{base_seed}n{i}') for i in range(1500)]) if 'e1_split' in builds else []
         xres = run_all(xe0, xe1, 'x')
         extra_run = len(xres)
         for x in xres:
